@@ -3,6 +3,7 @@ import NavisModel.Proofs.ResampleGeomLemmas
 import NavisModel.Proofs.ResampleRealLemmas
 import NavisModel.Proofs.DownsampleLemmas
 import NavisModel.Proofs.BranchingLemmas
+import NavisModel.Props.C01
 /-!
 # C13 — down- and resampling preserve branching structure and geometry
 
@@ -151,6 +152,26 @@ theorem downsample_same_forks_and_tips (t : Table) (hw : WF t) (hl : labelsOKB t
     · exact h
     · rw [hmid, rootPath_of_root hf hneg] at ha'
       simp at ha'
+
+/-! ## Downsampling after an arbitrary history
+
+The downsampling theorems above assume correct labels because navis reads its current `type` column.  That
+assumption is discharged along histories: every operation of the unified catalogue (`OpsAll`, C01) returns a
+well-formed, correctly labelled skeleton, so the clause list holds wherever a downsample is applied. -/
+
+/-- **The downsampling clause list holds after every history**: start from any well-formed, correctly
+labelled skeleton, apply any finite sequence of catalogue operations (subset, reroot, cuts, pruning, healing,
+stitching with well-formed foreign skeletons, resampling, earlier downsamplings, …) and downsample the
+result with any factor and preserved set. -/
+theorem downsample_spec_after_history (len : Int → Int → Nat) (t : Table) (hw : WF t) (hl : labelsOKB t = true)
+    (ops : List OpAll) (hok : ∀ op ∈ ops, op.ok) (f : Option Nat) (pres : List Int) :
+    let u := ops.foldl (applyAll len) t
+    DsSpec u (downsample u f pres) f [] ∧ WF (downsample u f pres) ∧
+      ∀ i ∈ ids (downsample u f pres), childCount (downsample u f pres) i = childCount u i := by
+  intro u
+  obtain ⟨hwu, hlu⟩ := Navis.Props.C01.opsAll_labels_ok len t hw hl ops hok
+  exact ⟨downsample_satisfies_spec u hwu hlu f pres [] (by simp), (downsample_WF u hwu f pres).1,
+    fun i hi => downsample_branching_unchanged u hwu hlu f pres i hi⟩
 
 /-! ## Resampling: rounding and node count -/
 
